@@ -143,7 +143,11 @@ pub fn oracle(prop: &str, case: &Case, outs: &[ImplRes]) -> Result<(), String> {
 
 pub fn short(s: &str) -> String {
     if s.len() > 300 {
-        format!("{}…({} chars)", &s[..300], s.len())
+        let mut k = 300;
+        while !s.is_char_boundary(k) {
+            k -= 1;
+        }
+        format!("{}…({} chars)", &s[..k], s.len())
     } else {
         s.to_string()
     }
@@ -383,6 +387,23 @@ fn oracle_c18(case: &Case, outs: &[ImplRes]) -> Result<(), String> {
             "c" => {
                 v.clear();
                 tag = "ok";
+            }
+            "q" => {
+                match got.get(k) {
+                    Some(g) if g == "eq:100" => {}
+                    g => return Err(format!("op #{} equality does not depend on the visible contents only: got {:?}, expected eq:100 (equal to a fresh buffer with the same bytes, unequal to different contents)", k, g)),
+                }
+                continue;
+            }
+            "d" => {
+                let dec = format!("[{}]", v.iter().map(|b| b.to_string()).collect::<Vec<_>>().join(","));
+                let hx = format!("[{}]", v.iter().map(|b| format!("{:x}", b)).collect::<Vec<_>>().join(","));
+                let want = format!("dbg:{}:{}", dec, hx);
+                match got.get(k) {
+                    Some(g) if *g == want => {}
+                    g => return Err(format!("op #{} Debug output: got {:?}, expected `{}`", k, g, want)),
+                }
+                continue;
             }
             "i" => {
                 let bs = untok(rest).unwrap();
